@@ -148,6 +148,7 @@ def interpret(case, global_mod=None):
     rejected_then_ok = False
     pending_reject = False
     labels = set()
+    sparse = case.get("verify") == "sparse"    # long histories: full verification only when the size is near a power of two / a multiple of 16
     lazy = case.get("verify") == "end"         # do not touch the libraries' observers before / between the operations,
     if not lazy:                               # so that lazily created internal state cannot hide behind an early call
         for lib, model in zip(libs, models):
@@ -210,14 +211,16 @@ def interpret(case, global_mod=None):
                     raise Violation("unknown-name-error", f"{where}: lookup of unknown name {name!r} returned {got!r}")
         else:
             raise InvalidCase(op)
-        if not lazy or k == len(case["ops"]) - 1:
+        due = (not lazy) if not sparse else (len(model) % 16 in (0, 1, 15) or len(model) < 4)
+        if due or k == len(case["ops"]) - 1:
             for j, (l2, m2) in enumerate(zip(libs, models)):
                 verify(l2, m2, where + (f" [observing lib {j}]" if j != li else ""))
     if gkind == "none":
         # the real global library must not have noticed anything
         verify(ModuleLib(Tags), _global_model(Tags), "real global library after a local-only history")
     return {"nontrivial": hostile >= 1 and accepted >= 3 and rejected_then_ok,
-            "labels": sorted(labels) + [f"global-{gkind}", f"libs-{nlibs}"] + (["verify-at-end-only"] if lazy else [])}
+            "labels": sorted(labels) + [f"global-{gkind}", f"libs-{nlibs}"] + (["verify-at-end-only"] if lazy else [])
+            + (["tags>=64"] if max(len(m) for m in models) >= 64 else [])}
 
 
 _gm = {}
@@ -278,6 +281,19 @@ def strategy(tier):
     look = st.fixed_dictionaries({"op": st.just("lookup"), "lib": st.integers(0, 2), "id": st.integers(-2, 12)})
     unk = st.fixed_dictionaries({"op": st.just("unknown"), "lib": st.integers(0, 2), "n": st.integers(0, 4)})
     gk = st.integers(0, 39).map(lambda v: "interpreter" if v == 0 else ("fresh-module" if v <= 10 else "none"))
+    from vf.fixtures import near_pow2
+    # long libraries: block-wise / cached paths only differ from the plain ones at or beyond a size threshold
+    long_hist = near_pow2(15, 130).flatmap(lambda n: st.fixed_dictionaries({
+        "libs": st.just(2), "global": st.sampled_from(["none", "none", "fresh-module"]), "verify": st.sampled_from(["end", "sparse"]),
+        "ops": st.builds(lambda tail: [{"op": "add", "lib": 0, "name": f"T{i}"} for i in range(n - 1)] + tail,
+                         sized_lists(wone_of(add, add, look, unk), 0, 6))}))
+    small = _small(gk, add, look, unk)
+    return wone_of(*([small] * 14 + [long_hist]))
+
+
+def _small(gk, add, look, unk):
+    from hypothesis import strategies as st
+    from vf.fixtures import sized_lists
     return st.fixed_dictionaries({"libs": st.integers(1, 3), "global": gk, "verify": st.sampled_from(["every", "every", "end"]),
                                   "ops": wone_of(st.lists(wone_of(add, add, add, add, look, unk), min_size=1, max_size=25), sized_lists(wone_of(add, add, add, add, look, unk), 6, 25))})
 
